@@ -176,13 +176,16 @@ def r09_3(ctx):
         cuts = _cut_points(f)
         ctx.ob("R09.3", f"surrogate-bounds:{short(f.id)}", cuts == {0xD800, 0xDC00, 0xE000}, f.loc(), f"the code unit is classified by cuts at {sorted(hex(x) for x in cuts)} (half-open ranges D800..DC00..E000)")
     cu = prog.find("unicode::codepoint_to_utf8")
-    cs = consts_in(cu)
-    for name, want in (("thresholds", {0x7F, 0x7FF, 0xFFFF, 0x10FFFF}), ("lead/continuation", {192, 224, 240, 128, 63}), ("shifts", {6, 12, 18})):
+    # the encoder and the private helpers it is written with (a nested `cont(cp, shift)`)
+    cluster = [cu] + [prog.fns[t["callee"]] for b, t in cu.calls() if t["callee"] in prog.fns and prog.fns[t["callee"]].crate == "sonic_rs"]
+    cs = set().union(*[consts_in(g) for g in cluster])
+    # lead bytes and the continuation marker / mask may be added or or-ed in; thresholds may be inclusive upper or lower bounds
+    for name, want in (("lead/continuation", {192, 224, 240, 128, 63}), ("shifts", {6, 12, 18})):
         ctx.ob("R09.3", f"utf8-{name}", want <= cs, cu.loc(), f"codepoint_to_utf8 {name}: {sorted(want & cs)} of {sorted(want)}")
-    # comparison kinds: cp <= threshold
-    les = [s for b, i, s in cu.assigns() if s["rv"]["k"] == "binop" and s["rv"]["op"] in ("Le", "Lt", "Gt", "Ge")]
-    okc = all((s["rv"]["op"] == "Le" and op_int(s["rv"]["b"]) in (0x7F, 0x7FF, 0xFFFF, 0x10FFFF)) or op_int(s["rv"]["b"]) not in (0x7F, 0x7FF, 0xFFFF, 0x10FFFF, 0x80, 0x800, 0x10000, 0x110000) for s in les)
-    ctx.ob("R09.3", "utf8-threshold-comparisons", okc and len(les) >= 4, cu.loc(), f"{len(les)} threshold comparisons, all of the form cp <= bound")
+    cuts = _cut_points(cu, 0x40, 0x200000)
+    wantc = {0x80, 0x800, 0x10000, 0x110000}
+    ctx.ob("R09.3", "utf8-thresholds", cuts == wantc, cu.loc(), f"the code point is classified by cuts at {sorted(hex(x) for x in cuts)} (1 / 2 / 3 / 4 bytes / invalid: {sorted(hex(x) for x in wantc)})")
+    ctx.ob("R09.3", "utf8-threshold-comparisons", len(cuts) >= 4, cu.loc(), f"{len(cuts)} distinct thresholds", nontrivial=False)
     # lossy replacement constant
     rep = [any(0xFFFD in consts_in(g) for g in _helpers(prog, dec1)), 0xFFFD in consts_in(prog.find("unicode::repr_utf16_surrogate"))]
     ctx.ob("R09.3", "replacement:U+FFFD", all(rep), dec1.loc(), "lossy arms produce U+FFFD")
